@@ -647,7 +647,7 @@ def check_comments(ctx):
         elif alone and unresolved:
             ctx.undecided(rule, t.func, st, 'cannot follow where the text of the annotation hole (%s) comes from' % src[:60], t.lineno, clause='f')
         else:
-            ctx.violation(rule, t.func, st, 'the annotation hole is %s' % ('not alone on its line' if not alone else 'filled with something other than the source map (%s)' % src[:80]), t.lineno, clause='f')
+            ctx.violation(rule, t.func, st, 'the annotation hole is %s' % ('not alone on its line' if not alone else 'filled with something other than the source map (%s)' % src[:80]), t.lineno, clause='f', witness=not alone)
     pb = repo.cls('PacketClassBuilder')
     cf = pb.methods.get('collect_fields_sourcecode')
     if cf is None:
